@@ -2,38 +2,83 @@
 
 specpq writes nested columns from explicit Python values with every page split
 of the value stream; the real reader must reproduce the values.
+
+Families of cells (point key "fam"):
+  base    the original lattice (all shapes x 4 element types x PLAIN|dictionary x v1|v2)
+  types   element types whose values need a conversion (DATE, TIMESTAMP_MICROS, UINT_32), BOOLEAN, INT32 map keys
+  nullpos row alphabet with a null element before a value
+  mixed   chunks whose pages differ in encoding (dictionary fallback), other dictionary contents, dictionary-encoded
+          map keys, key / value chunks paged differently
+  names   other column names and other names of the inner groups
+  levels  RLE-run level streams and long rows
+  rg2     two row groups of several pages each, cut at every row
+  multi   the nested column next to other columns, read completely, by column selection, per row group
 """
 import itertools
+import math
 
 ID = "C15"
 LEVEL = "exploration"
 FLAVOUR = "plain"
 TIMEOUT = 600
-RULE = ("cell = (shape: optional|required LIST of optional|required element, optional|required MAP<required key, "
+RULE = ("base cell = (shape: optional|required LIST of optional|required element, optional|required MAP<required key, "
         "optional value>) x element type (INT32, INT64, UTF8, DOUBLE) x PLAIN|dictionary x v1|v2; inside a cell: "
         "every sequence of <= 3 rows (quick) / <= 4 rows (thorough) over the row alphabet {None, [], [x], [None], "
         "[x, None], [x, y, z]} (restricted to what the schema allows) x every split of the level stream into 1, 2 "
-        "or 3 pages at arbitrary entry positions incl. inside a row (v2: at row boundaries only) x 1-2 row groups; "
-        "non-trivial = file with >= 1 row decoded and compared")
+        "or 3 pages at arbitrary entry positions incl. inside a row (v2: at row boundaries only) x 1-2 row groups. "
+        "Further families, each the same sequences x splits with <= 2 rows (thorough: <= 3 rows for types, nullpos, "
+        "multi on v1 pages; more shapes / element types / both encodings / v2 pages) unless stated: types = element DATE, TIMESTAMP_MICROS, UINT_32 (PLAIN and dictionary), BOOLEAN (PLAIN), INT32 map "
+        "keys; nullpos = sequences containing [None, y] or [x, None, z]; mixed = every non-uniform assignment of "
+        "PLAIN|PLAIN_DICTIONARY to the pages of a chunk, dictionary page = reversed pool plus an unused label | 300 "
+        "labels (9-bit indices) | one label (0-bit indices), map keys dictionary-encoded, key chunk in one page while "
+        "the value chunk is split and vice versa; names = column named key|value|element|list|'a b', inner groups "
+        "named bag/array_element | array/item | map, middle group of a MAP without annotation; levels = every "
+        "<= 3 row sequence in one page with RLE-run repetition and definition levels, and six long-row programs "
+        "(rows of 9, 10, 17 entries, 9 one-entry rows) x every 1- and 2-page split x auto|RLE-run levels; rg2 = "
+        "every sequence of 2..3 rows cut into two row groups at every row x every split of either chunk into <= 2 "
+        "pages; multi = file with a flat, a LIST, a MAP, a LIST<UTF8> and a second MAP column x every <= 2 row "
+        "sequence x 1-2 pages x 1-2 row groups read by to_pandas(), to_pandas(columns=...), iter_row_groups() and "
+        "pf[i]; non-trivial = file with >= 1 row decoded and compared")
 ASSUMPTIONS = ["specpq writer/reader implement Dremel shredding/assembly for 3-level LIST and MAP (self-checked)",
-               "map keys distinct within a row"]
+               "map keys distinct within a row",
+               "the known-finding models (Python port of the v1 assembly loop with its continuation defect; layout "
+               "predicates of the v2 page decoder's defects) only classify failures, they never make a file pass"]
 
 CREATED_BY = "parquet-mr version 1.12.3 (build f8dced182c4c1fbdec6ccb3185537b5a01e6ed6b)"
-T_INT32, T_INT64, T_DOUBLE, T_BYTE_ARRAY = 1, 2, 5, 6
+T_BOOLEAN, T_INT32, T_INT64, T_DOUBLE, T_BYTE_ARRAY = 0, 1, 2, 5, 6
+DAY_NS = 86400 * 10 ** 9
+DICT_ENCS = ("PLAIN_DICTIONARY", "RLE_DICTIONARY")
 
 ELEM = {
     "int32": (T_INT32, None, [7, -1, 2 ** 31 - 1]),
     "int64": (T_INT64, None, [7, -1, 2 ** 63 - 1]),
     "utf8": (T_BYTE_ARRAY, 0, [b"a", "é".encode(), b""]),
     "double": (T_DOUBLE, None, [1.5, -0.0, 1e300]),
+    # physical values; _logical() gives what a reader has to return
+    "date": (T_INT32, 6, [1, -1, 19000]),
+    "ts_us": (T_INT64, 10, [10 ** 6, -1, 1600000000123456]),
+    "uint32": (T_INT32, 13, [7, -1, -2 ** 31]),
+    "bool": (T_BOOLEAN, None, [True, False, True]),
 }
+BASE_ELEMS = ["int32", "int64", "utf8", "double"]
 SHAPES = ["list_oo", "list_or", "list_ro", "list_rr", "map_o", "map_r"]
+ELEM_OPT = ("list_oo", "list_ro", "map_o", "map_r")      # map value is optional
+OUTER_OPT = ("list_oo", "list_or", "map_o")
+
+NAME_VARIANTS = {
+    "col_key": {"name": "key"}, "col_value": {"name": "value"}, "col_element": {"name": "element"},
+    "col_list": {"name": "list"}, "col_space": {"name": "a b"},
+    "hive": {"group_name": "bag", "elem_name": "array_element"},         # LIST only
+    "legacy": {"group_name": "array", "elem_name": "item"},              # LIST only
+    "map_group": {"group_name": "map"},                                    # MAP only
+    "kv_plain": {"kv_ct": None},                                           # MAP only: middle group not annotated
+}
 
 
-def points(tier):
+def _base_points(tier):
     pts = []
     for shape in SHAPES:
-        for et in ELEM:
+        for et in BASE_ELEMS:
             for enc in ("PLAIN", "RLE_DICTIONARY"):
                 for v in (1, 2):
                     maxrows = 4 if tier == "thorough" else 3
@@ -46,6 +91,64 @@ def points(tier):
     return pts
 
 
+def points(tier):
+    th = tier == "thorough"
+    pts = _base_points(tier)
+    small = 3 if th else 2
+
+    def pt(fam, shape, et, enc, v, maxrows, **kw):
+        d = {"fam": fam, "shape": shape, "elem": et, "enc": enc, "v": v, "maxrows": maxrows, "first": None}
+        d.update(kw)
+        pts.append(d)
+    # types
+    for shape in (SHAPES if th else ("list_oo", "map_o")):
+        for et in ("date", "ts_us", "uint32", "bool"):
+            for enc in ("PLAIN", "RLE_DICTIONARY"):
+                if et == "bool" and enc != "PLAIN":
+                    continue
+                pt("types", shape, et, enc, 1, small)
+                if th:
+                    pt("types", shape, et, enc, 2, 2)
+    for shape in ("map_o", "map_r") if th else ("map_o",):
+        for enc in ("PLAIN", "RLE_DICTIONARY"):
+            pt("types", shape, "int32", enc, 1, small, keyt="int32")
+    # nullpos
+    for shape in ELEM_OPT:
+        for et in BASE_ELEMS:
+            for enc in ("PLAIN", "RLE_DICTIONARY"):
+                pt("nullpos", shape, et, enc, 1, small, alpha="ext")
+                if th:
+                    pt("nullpos", shape, et, enc, 2, 2, alpha="ext")
+    # mixed
+    for shape in SHAPES:
+        for et in (BASE_ELEMS if th else ("int32", "utf8")):
+            for v in ((1, 2) if th else (1,)):
+                pt("mixed", shape, et, "mixed", v, 2)
+    # names
+    for shape in ("list_oo", "list_rr", "map_o", "map_r"):
+        for var in NAME_VARIANTS:
+            if var in ("hive", "legacy") and shape.startswith("map"):
+                continue
+            if var in ("map_group", "kv_plain") and shape.startswith("list"):
+                continue
+            for enc in (("PLAIN", "RLE_DICTIONARY") if th else ("PLAIN",)):
+                pt("names", shape, "int32", enc, 1, 2, variant=var)
+    # levels
+    for shape in SHAPES:
+        for enc in ("PLAIN", "RLE_DICTIONARY"):
+            for v in ((1, 2) if th else (1,)):
+                pt("levels", shape, "int32", enc, v, 3)
+    # rg2
+    for shape in (SHAPES if th else ("list_oo", "list_rr", "map_o")):
+        for et in (("int32", "utf8") if th else ("int32",)):
+            for enc in ("PLAIN", "RLE_DICTIONARY"):
+                pt("rg2", shape, et, enc, 1, 3)
+    # multi
+    for enc in ("PLAIN", "RLE_DICTIONARY"):
+        pt("multi", "list_oo", "int32", enc, 1, small)
+    return pts
+
+
 def explore(run, tier):
     run.lattice("nested", points(tier), "run")
 
@@ -53,13 +156,16 @@ def explore(run, tier):
 def crash_sig(point, res):
     import re
     m = re.search(r"^MARK (.*)$", res.get("log_tail", ""), flags=re.M)
-    return {"shape": point["shape"], "elem": point["elem"], "enc": point["enc"], "v": point["v"],
-            "symptom": res["outcome"], "case": m.group(1) if m else "?"}
+    s = {"shape": point["shape"], "elem": point["elem"], "enc": point["enc"], "v": point["v"],
+         "symptom": res["outcome"], "case": m.group(1) if m else "?"}
+    if point.get("fam"):
+        s["fam"] = point["fam"]
+    return s
 
 
-def row_alphabet(shape, x, y, z):
-    outer_opt = shape in ("list_oo", "list_or", "map_o")
-    elem_opt = shape in ("list_oo", "list_ro", "map_o", "map_r")   # map value is optional
+def row_alphabet(shape, x, y, z, ext=False):
+    outer_opt = shape in OUTER_OPT
+    elem_opt = shape in ELEM_OPT
     rows = []
     if outer_opt:
         rows.append(None)
@@ -69,18 +175,27 @@ def row_alphabet(shape, x, y, z):
         rows.append([None])
         rows.append([x, None])
     rows.append([x, y, z])
+    if ext and elem_opt:
+        # a null element BEFORE a value: element order with nulls, continuations that start with a null
+        rows.append([None, y])
+        rows.append([x, None, z])
     return rows
 
 
-def _splits(n, boundaries=None):
+def _splits(n, boundaries=None, maxpages=3):
     """all splits of n entries into 1, 2, 3 pages; boundaries: allowed cut positions"""
     cuts = [c for c in range(1, n) if boundaries is None or c in boundaries]
     out = [[n]] if n else [[0]]
     for a in cuts:
         out.append([a, n - a])
-    for a, b in itertools.combinations(cuts, 2):
-        out.append([a, b - a, n - b])
+    if maxpages >= 3:
+        for a, b in itertools.combinations(cuts, 2):
+            out.append([a, b - a, n - b])
     return out
+
+
+def _nent(rows):
+    return [1 if (r is None or len(r) == 0) else len(r) for r in rows]
 
 
 def _cont_null_only(rows, split):
@@ -93,16 +208,12 @@ def _cont_null_only(rows, split):
         else:
             for i, v in enumerate(r):
                 ent.append((i == 0, v is None))
-    pos = 0
-    for k in split[:-1]:
-        pos += k
+    ends = list(itertools.accumulate(split))
+    for pi, pos in enumerate(ends[:-1]):
         if pos < len(ent) and not ent[pos][0]:
-            end = pos + split[split.index(k) + 1] if False else None
             j = pos
             allnull = True
-            # continued entries within the next page
-            nxt = split[[sum(split[:i + 1]) for i in range(len(split))].index(pos) + 1]
-            while j < pos + nxt and not ent[j][0]:
+            while j < ends[pi + 1] and not ent[j][0]:
                 allnull = allnull and ent[j][1]
                 j += 1
             if allnull:
@@ -110,131 +221,676 @@ def _cont_null_only(rows, split):
     return False
 
 
-def run(p):
-    import io
-    import fastparquet
-    from mc.specpq import writer as W, file as F
-    from mc import oracles as O
-    from mc.scratch import mark
-    shape, et, enc, ver = p["shape"], p["elem"], p["enc"], p["v"]
-    ptype, ct, pool = ELEM[et]
-    x, y, z = pool
-    is_map = shape.startswith("map")
-    alphabet = row_alphabet(shape, x, y, z)
-    files = rows_checked = 0
-    sigs = {}
-    detail = [""]
+# ---------------------------------------------------------------- models of the known defects (classification only)
+def _entries(rows, pick=None):
+    """level entries of one leaf: (starts_row, kind, value); rows hold logical values"""
+    ent = []
+    for r in rows:
+        if r is None:
+            ent.append((True, "null_row", None))
+        elif len(r) == 0:
+            ent.append((True, "empty", None))
+        else:
+            for i, it in enumerate(r):
+                v = it if pick is None else pick(i, it)
+                ent.append((i == 0, "null_elem" if v is None else "value", v))
+    return ent
 
-    def bad(symptom, msg, **extra):
-        s = {"shape": shape, "elem": et, "enc": enc, "v": ver, "symptom": symptom}
+
+def _kf_assemble_v1(ent, ns, nrows):
+    """Python port of cencoding._assemble_objects + the row index handling of core.read_col for v1 pages,
+    INCLUDING the known defect (`vali > 0`): null elements that continue a row on the next page are not added to
+    that row but stay in the buffer and open the next row.  Returns None when the port cannot run (then nothing
+    is classified as known)."""
+    out = [None] * nrows
+    row_idx = 0
+    pos = 0
+    try:
+        for n in ns:
+            page = ent[pos:pos + n]
+            pos += n
+            i = row_idx
+            part = []
+            vali = 0
+            started = have_null = False
+            for start, kind, val in page:
+                if start:
+                    if started:
+                        out[i] = None if have_null else part
+                        part = []
+                        i += 1
+                    else:
+                        if vali > 0:
+                            out[i - 1].extend(part)
+                            part = []
+                        started = True
+                if kind == "value":
+                    part.append(val)
+                    vali += 1
+                elif kind == "null_elem":
+                    part.append(None)
+                have_null = kind == "null_row"
+            if started:
+                out[i] = None if have_null else part
+            else:
+                out[i - 1].extend(part)
+            row_idx = i + (1 if any(e[0] for e in page) else 0)
+    except (IndexError, AttributeError):
+        return None
+    return out
+
+
+def _v2_flags(leaves, outer_required):
+    """layout predicates under which read_data_page_v2 is known not to assemble nested pages.
+    leaves: [(entries, [(n, enc), ...])] of one row group's nested column"""
+    plain = nonull = req = mixed = False
+    for ent, pages in leaves:
+        pos = 0
+        if len(set(enc in DICT_ENCS for _, enc in pages)) == 2:
+            mixed = True        # the PLAIN branch addresses its output by entry, the dictionary branch by row
+        for n, enc in pages:
+            page = ent[pos:pos + n]
+            pos += n
+            if enc in DICT_ENCS:
+                if all(e[1] == "value" for e in page):
+                    nonull = True       # `defi` is only decoded for pages with nulls: UnboundLocalError
+                if outer_required:
+                    req = True          # assembled with null=True whatever the schema says
+            else:
+                if any(e[1] != "null_row" for e in page):
+                    plain = True        # PLAIN pages are stored entry by entry like a flat column
+    return {"v2_plain": plain, "v2_dict_nonull": nonull, "v2_dict_req": req, "v2_mixed": mixed}
+
+
+# ---------------------------------------------------------------- oracle
+def _is_coll(v):
+    return isinstance(v, (list, dict))
+
+
+def _diff_kind(g, e):
+    """coarse class of a wrong row (g, e canonical)"""
+    if e is None:
+        return "null_as_row" if _is_coll(g) else "null_as_scalar"
+    if g is None:
+        return "empty_as_null" if len(e) == 0 else "row_as_null"
+    if not _is_coll(g):
+        return "scalar_row"
+    if type(g) is not type(e):
+        return "wrong_container"
+    if isinstance(e, list):
+        if len(g) < len(e):
+            return "null_elems_dropped" if g == [v for v in e if v is not None] else "elems_missing"
+        if len(g) > len(e):
+            return "elems_extra"
+        try:
+            same = sorted(map(repr, g)) == sorted(map(repr, e))
+        except Exception:
+            same = False
+        return "elem_order" if same else "elem_value"
+    if set(g) != set(e):
+        if set(g) < set(e):
+            return "pairs_missing"
+        return "pairs_extra" if set(g) > set(e) else "keys_differ"
+    return "map_value"
+
+
+def _raw_faults(raw, exp):
+    """what the canonical comparison cannot see: container types, the representation of nulls, the order of the
+    keys of a dict, the sign of zero.  -> (symptom, kind) or None"""
+    from mc import oracles as O
+
+    def elem_fault(r, e):
+        if e is None:
+            return None if r is None else ("null_not_none", "element")
+        if isinstance(e, float) and e == 0.0:
+            c = O.canon_cell(r)
+            if isinstance(c, float) and math.copysign(1.0, c) != math.copysign(1.0, e):
+                return ("wrong_value", "zero_sign")
+        return None
+    for r, e in zip(raw, exp):
+        if e is None:
+            if r is not None:
+                return ("null_not_none", "row")
+        elif isinstance(e, list):
+            if type(r) is not list:
+                return ("wrong_container", type(r).__name__)
+            for ri, ei in zip(r, e):
+                f = elem_fault(ri, ei)
+                if f:
+                    return f
+        else:
+            if type(r) is not dict:
+                return ("wrong_container", type(r).__name__)
+            if [O.canon_cell(k) for k in r] != list(e):
+                return ("key_order", "dict")
+            for k, rv in r.items():
+                f = elem_fault(rv, e[O.canon_cell(k)])
+                if f:
+                    return f
+    return None
+
+
+def _judge(raw, exp, model=None):
+    """-> None | (symptom, kind, row index)"""
+    from mc import oracles as O
+    got = [O.canon_cell(x) for x in raw]
+    i = O.first_diff(got, exp)
+    if i is not None:
+        if i < 0:
+            return ("wrong_value", "row_count", -1)
+        if model is not None and model != exp and O.first_diff(got, model) is None:
+            return ("wrong_value", "kf_cont_null_model", i)
+        return ("wrong_value", _diff_kind(got[i], exp[i]), i)
+    f = _raw_faults(raw, exp)
+    if f:
+        return (f[0], f[1], None)
+    return None
+
+
+def _logical(et, v):
+    if v is None:
+        return None
+    if et == "utf8":
+        return v.decode()
+    if et == "date":
+        return ("ts", v * DAY_NS)
+    if et == "ts_us":
+        return ("ts", v * 1000)
+    if et == "uint32":
+        return v & 0xFFFFFFFF
+    return v
+
+
+def _big_dictionary(et, pool):
+    """300 labels, the pool last: 9-bit indices"""
+    if et in ("int32", "int64"):
+        fill = list(range(1000, 1297))
+    elif et == "utf8":
+        fill = [b"u%03d" % i for i in range(297)]
+    else:
+        fill = [i + 0.25 for i in range(297)]
+    return fill + list(pool)
+
+
+class _Cell:
+    """one column description + bookkeeping of a cell"""
+
+    def __init__(self, p, pool=None):
+        self.p = p
+        self.shape, self.et, self.enc, self.ver = p["shape"], p["elem"], p["enc"], p["v"]
+        self.fam = p.get("fam", "base")
+        self.ptype, self.ct, self.pool = ELEM[self.et]
+        if pool is not None:
+            self.pool = pool
+        self.is_map = self.shape.startswith("map")
+        self.outer_required = self.shape not in OUTER_OPT
+        var = NAME_VARIANTS.get(p.get("variant"), {})
+        self.name = var.get("name", "c")
+        self.keyt = p.get("keyt", "utf8")
+        self.keys = [b"k1", b"k2", b"k3"] if self.keyt == "utf8" else [5, -6, 2 ** 31 - 1]
+        if self.is_map:
+            kd = ({"ptype": T_BYTE_ARRAY, "rep": "required", "ct": 0} if self.keyt == "utf8"
+                  else {"ptype": T_INT32, "rep": "required", "ct": None})
+            self.col = {"name": self.name, "nested": "map", "rep": "optional" if self.shape == "map_o" else "required",
+                        "key": kd, "value": {"ptype": self.ptype, "rep": "optional", "ct": self.ct}}
+        else:
+            self.col = {"name": self.name, "nested": "list", "rep": "optional" if self.shape[5] == "o" else "required",
+                        "elem": {"ptype": self.ptype, "rep": "optional" if self.shape[6] == "o" else "required",
+                                 "ct": self.ct}}
+        for k in ("group_name", "elem_name", "kv_ct"):
+            if k in var:
+                self.col[k] = var[k]
+        self.files = self.rows_checked = self.files_ok = 0
+        self.sigs = {}
+        self.detail = ""
+        self.first_file = True
+
+    # -- values
+    def klog(self, k):
+        return k.decode() if isinstance(k, bytes) else k
+
+    def key(self, j):
+        """key of the j-th entry of a row (long rows need more than the three pool keys)"""
+        if j < len(self.keys):
+            return self.keys[j]
+        return (b"k%d" % (j + 1)) if self.keyt == "utf8" else 100 + j
+
+    def wrows(self, rows):
+        if self.is_map:
+            return [None if r is None else [(self.key(j), v) for j, v in enumerate(r)] for r in rows]
+        return rows
+
+    def expected(self, rows):
+        if self.is_map:
+            return [None if r is None else {self.klog(self.key(j)): _logical(self.et, v) for j, v in enumerate(r)}
+                    for r in rows]
+        return [None if r is None else [_logical(self.et, v) for v in r] for r in rows]
+
+    # -- layout
+    def rg(self, rows, pages, key_pages=None, dictionary="auto", key_dictionary="auto"):
+        """one row group of the nested column. pages: [{"n","enc","v",...}] of the element / value chunk;
+        key_pages default: same pages, PLAIN (what the original lattice did)"""
+        if dictionary == "auto":
+            dictionary = list(self.pool) if any(pg["enc"] in DICT_ENCS for pg in pages) else None
+        d = {"rows": rows, "pages": pages, "dictionary": dictionary}
+        if self.is_map:
+            if key_pages is None:
+                key_pages = [dict(pg, enc="PLAIN") for pg in pages]
+            if key_dictionary == "auto":
+                key_dictionary = list(self.keys) if any(pg["enc"] in DICT_ENCS for pg in key_pages) else None
+            d["key_pages"], d["key_dictionary"] = key_pages, key_dictionary
+        return d
+
+    def chunk(self, g):
+        ch = {"rows": self.wrows(g["rows"]), "codec": 0}
+        if self.is_map:
+            ch["pages_value"] = g["pages"]
+            ch["pages_key"] = g["key_pages"]
+            ch["dictionary_value"] = g["dictionary"]
+            ch["dictionary_key"] = g["key_dictionary"]
+        else:
+            ch["pages"] = g["pages"]
+            ch["dictionary"] = g["dictionary"]
+        return ch
+
+    def leaves(self, g):
+        """[(entries of logical values, [(n, enc)])] of a row group"""
+        rows = g["rows"]
+        if self.is_map:
+            return [(_entries(rows, lambda i, it: self.klog(self.key(i))), [(pg["n"], pg["enc"]) for pg in g["key_pages"]]),
+                    (_entries(rows, lambda i, it: _logical(self.et, it)), [(pg["n"], pg["enc"]) for pg in g["pages"]])]
+        return [(_entries(rows, lambda i, it: _logical(self.et, it)), [(pg["n"], pg["enc"]) for pg in g["pages"]])]
+
+    def kf_model(self, rgs):
+        """rows the v1 reader returns if nothing but its known continuation defect is wrong"""
+        out = []
+        for g in rgs:
+            cols = []
+            for ent, pages in self.leaves(g):
+                a = _kf_assemble_v1(ent, [n for n, _ in pages], len(g["rows"]))
+                if a is None:
+                    return None
+                cols.append(a)
+            if self.is_map:
+                out.extend(dict(zip(k, v)) if (k is not None and v is not None) else None for k, v in zip(*cols))
+            else:
+                out.extend(cols[0])
+        return out
+
+    def context(self, rgs):
+        ctx = {"pages": max(len(g["pages"]) for g in rgs), "rgs": len(rgs)}
+        inside = cont = False
+        for g in rgs:
+            bounds = set(itertools.accumulate(_nent(g["rows"])))
+            for pages in ([g["pages"]] + ([g["key_pages"]] if self.is_map else [])):
+                split = [pg["n"] for pg in pages]
+                inside = inside or bool(set(itertools.accumulate(split[:-1])) - bounds)
+                cont = cont or _cont_null_only(g["rows"], split)
+        ctx["split_inside_row"], ctx["cont_null_only"] = inside, cont
+        if self.ver == 2:
+            fl = {"v2_plain": False, "v2_dict_nonull": False, "v2_dict_req": False, "v2_mixed": False}
+            for g in rgs:
+                for k, v in _v2_flags(self.leaves(g), self.outer_required).items():
+                    fl[k] = fl[k] or v
+            ctx.update(fl)
+        return ctx
+
+    # -- bookkeeping
+    def bad(self, symptom, msg, **extra):
+        s = {"shape": self.shape, "elem": self.et, "enc": self.enc, "v": self.ver, "symptom": symptom}
+        if self.fam != "base":
+            s["fam"] = self.fam
+        for k in ("variant", "keyt"):
+            if self.p.get(k):
+                s[k] = self.p[k]
         s.update(extra)
         k = repr(sorted(s.items()))
-        if k not in sigs:
-            sigs[k] = s
-            if not detail[0]:
-                detail[0] = msg
+        if k not in self.sigs:
+            self.sigs[k] = s
+            if not self.detail:
+                self.detail = msg
 
-    def logical(v):
-        if v is None:
-            return None
-        if ct == 0:
-            return v.decode()
-        return v
+    def write(self, rgs):
+        from mc.specpq import writer as W, file as F
+        spec = {"created_by": CREATED_BY, "columns": [self.col],
+                "row_groups": [{self.name: self.chunk(g)} for g in rgs]}
+        try:
+            data = W.write_file(spec)
+        except ValueError as e:
+            raise AssertionError("spec writer refused %r: %s" % ([g["rows"] for g in rgs], e))
+        if self.first_file:
+            pr = F.read_file(data)
+            assert not pr.errors, pr.errors
+            got0 = F.column_rows(pr, self.name)
+            want = [r for g in rgs for r in self.wrows(g["rows"])]
+            assert repr(got0) == repr(want), ("specpq self round trip", got0, want)
+            self.first_file = False
+        return data
 
-    if is_map:
-        keys = [b"k1", b"k2", b"k3"]
-        col = {"name": "c", "nested": "map", "rep": "optional" if shape == "map_o" else "required",
-               "key": {"ptype": T_BYTE_ARRAY, "rep": "required", "ct": 0},
-               "value": {"ptype": ptype, "rep": "optional", "ct": ct}}
-    else:
-        col = {"name": "c", "nested": "list", "rep": "optional" if shape[5] == "o" else "required",
-               "elem": {"ptype": ptype, "rep": "optional" if shape[6] == "o" else "required", "ct": ct}}
-    dictionary = list(pool) if enc != "PLAIN" else None
-    first_file = True
-    for nrows in range(1, p["maxrows"] + 1):
+    def check(self, rgs, what, **more):
+        """write the file, read it with to_pandas(), compare"""
+        import io
+        import fastparquet
+        from mc.scratch import mark
+        data = self.write(rgs)
+        self.files += 1
+        mark(what)
+        ctx = self.context(rgs)
+        ctx.update(more)
+        exp = self.expected([r for g in rgs for r in g["rows"]])
+        try:
+            df = fastparquet.ParquetFile(io.BytesIO(data)).to_pandas()
+        except Exception as e:
+            self.bad("read_raised", "%s: %s: %s" % (what, type(e).__name__, str(e)[:160]),
+                     exc=type(e).__name__, **ctx)
+            return
+        if list(df.columns) != [self.name]:
+            self.bad("wrong_columns", "%s: columns %r" % (what, list(df.columns)), **ctx)
+            return
+        raw = df[self.name].tolist()
+        self.rows_checked += len(exp)
+        model = self.kf_model(rgs) if self.ver == 1 else None
+        j = _judge(raw, exp, model)
+        if j is None:
+            self.files_ok += 1
+            return
+        symptom, kind, i = j
+        from mc import oracles as O
+        got = [O.canon_cell(x) for x in raw]
+        if i is None:
+            msg = "%s: %s (%s): read %r, file encodes %r" % (what, symptom, kind, raw, exp)
+        elif i < 0:
+            msg = "%s: %d rows read, file encodes %d" % (what, len(got), len(exp))
+        else:
+            msg = "%s: row %s is %r, file encodes %r" % (what, i, got[i], exp[i])
+        self.bad(symptom, msg, kind=kind, **ctx)
+
+    def result(self):
+        ok = not self.sigs
+        return {"ok": ok, "outcome": "assembled" if ok else "wrong", "nontrivial": self.rows_checked > 0,
+                "counts": {"files": self.files, "rows": self.rows_checked, "files_ok": self.files_ok},
+                "sig": list(self.sigs.values()) or None, "detail": self.detail}
+
+
+# ---------------------------------------------------------------- enumerators
+def _programs(c, p, minrows=1):
+    x, y, z = c.pool
+    ext = p.get("alpha") == "ext"
+    alphabet = row_alphabet(c.shape, x, y, z, ext=ext)
+    nbase = len(row_alphabet(c.shape, x, y, z))
+    for nrows in range(minrows, p["maxrows"] + 1):
         for combo in itertools.product(range(len(alphabet)), repeat=nrows):
             if p["first"] is not None and combo[0] != p["first"] % len(alphabet):
                 continue
             if p["first"] is not None and p["first"] >= len(alphabet):
                 continue
-            rows = [alphabet[i] for i in combo]
-            if is_map:
-                wrows = [None if r is None else [(keys[j], v) for j, v in enumerate(r)] for r in rows]
-                exp = [None if r is None else {keys[j].decode(): logical(v) for j, v in enumerate(r)} for r in rows]
-            else:
-                wrows = rows
-                exp = [None if r is None else [logical(v) for v in r] for r in rows]
-            # level entries per row
-            ent = [1 if (r is None or len(r) == 0) else len(r) for r in rows]
+            if ext and all(i < nbase for i in combo):
+                continue    # sequences without a new row belong to the other families
+            yield [alphabet[i] for i in combo]
+
+
+def _pages(split, enc, ver, **kw):
+    return [dict({"n": k, "enc": enc, "v": ver}, **kw) for k in split]
+
+
+def _enum_splits(c, p):
+    """the original lattice: every split into <= 3 pages; two row groups for one-page files"""
+    enc, ver = c.enc, c.ver
+    for rows in _programs(c, p):
+        nrows = len(rows)
+        ent = _nent(rows)
+        n = sum(ent)
+        bounds = set(itertools.accumulate(ent))
+        for split in _splits(n, bounds if ver == 2 else None):
+            for nrg in ((1, 2) if (len(split) == 1 and nrows >= 2) else (1,)):
+                if nrg == 1:
+                    rgs = [c.rg(rows, _pages(split, enc, ver))]
+                else:
+                    a = nrows // 2
+                    rgs = [c.rg(part, _pages([sum(_nent(part))], enc, ver)) for part in (rows[:a], rows[a:])]
+                c.check(rgs, "rows=%r split=%s rgs=%d" % (rows, split, nrg))
+
+
+def _enum_mixed(c, p):
+    ver = c.ver
+    D = "PLAIN_DICTIONARY"
+    pool = list(c.pool)
+    for rows in _programs(c, p):
+        ent = _nent(rows)
+        n = sum(ent)
+        bounds = set(itertools.accumulate(ent))
+        for split in _splits(n, bounds if ver == 2 else None):
+            k = len(split)
+            what = "rows=%r split=%s" % (rows, split)
+            if k >= 2:
+                # dictionary fallback and its mirror images: pages of one chunk differ in encoding
+                for vec in itertools.product((D, "PLAIN"), repeat=k):
+                    if len(set(vec)) < 2:
+                        continue
+                    pages = [{"n": m, "enc": e, "v": ver} for m, e in zip(split, vec)]
+                    c.check([c.rg(rows, pages, key_pages=[dict(pg) for pg in pages] if c.is_map else None)],
+                            what + " encs=%s" % "".join("D" if e == D else "P" for e in vec), layout="page_encodings")
+            if k <= 2:
+                pages = _pages(split, D, ver)
+                kp = [dict(pg) for pg in pages] if c.is_map else None        # map keys dictionary-encoded too
+                c.check([c.rg(rows, pages, key_pages=kp, dictionary=pool[::-1] + [_unused(c.et)],
+                              key_dictionary=(list(c.keys)[::-1] + [b"unused"]) if c.is_map else None)],
+                        what + " dict=reversed+unused", layout="dict_permuted")
+                c.check([c.rg(rows, pages, key_pages=kp, dictionary=_big_dictionary(c.et, pool))],
+                        what + " dict=300", layout="dict_300")
+            if c.is_map and k == 2:
+                for enc in ("PLAIN", D):
+                    one = _pages([n], enc, ver)
+                    two = _pages(split, enc, ver)
+                    c.check([c.rg(rows, two, key_pages=[dict(pg, enc="PLAIN") for pg in one])],
+                            what + " enc=%s keys in one page" % enc, layout="key_value_paging")
+                    c.check([c.rg(rows, one, key_pages=[dict(pg, enc="PLAIN") for pg in two])],
+                            what + " enc=%s values in one page" % enc, layout="key_value_paging")
+    # a dictionary of one label: indices of width 0
+    x = pool[0]
+    one = _Cell(p, pool=[x, x, x])
+    one.first_file = False
+    seen = set()
+    for rows in _programs(one, p):
+        if repr(rows) in seen:
+            continue
+        seen.add(repr(rows))
+        ent = _nent(rows)
+        n = sum(ent)
+        bounds = set(itertools.accumulate(ent))
+        for split in _splits(n, bounds if ver == 2 else None, maxpages=2):
+            one.check([one.rg(rows, _pages(split, D, ver), dictionary=[x])],
+                      "rows=%r split=%s dict=one label" % (rows, split), layout="dict_1")
+    c.files += one.files
+    c.rows_checked += one.rows_checked
+    c.files_ok += one.files_ok
+    for k, s in one.sigs.items():
+        c.sigs.setdefault(k, s)
+    c.detail = c.detail or one.detail
+
+
+def _unused(et):
+    return {"int32": 12345, "int64": 12345, "utf8": b"unused", "double": 0.125}[et]
+
+
+def _long_programs(c):
+    x, y, z = c.pool
+    outer_opt, elem_opt = c.shape in OUTER_OPT, c.shape in ELEM_OPT
+    l17 = ([x, y, z] * 6)[:17]
+    l9 = ([z, y, x] * 3)[:9]
+    progs = [[l17, [], [x]],
+             [[x], l17],
+             [l9, l9],
+             [[x]] * 9 + [l17],       # nine one-entry rows: an RLE run of repetition level 0 also with "auto"
+             [[], l9, [], l17]]
+    if elem_opt:
+        progs.append([[x, None] * 5, l17, [None] * 9])
+    else:
+        progs.append([[]] * 9 + [l9])
+    if outer_opt:
+        progs = [pr + [None] for pr in progs[:3]] + [[None] + pr for pr in progs[3:]]
+    return progs
+
+
+def _enum_levels(c, p):
+    enc, ver = c.enc, c.ver
+    # every short sequence with RLE-run levels (the "auto" program of specpq bit-packs short streams)
+    for rows in _programs(c, p):
+        n = sum(_nent(rows))
+        c.check([c.rg(rows, _pages([n], enc, ver, rep_prog="rle", def_prog="rle"))],
+                "rows=%r split=[%d] levels=rle" % (rows, n), levels="rle")
+    for rows in _long_programs(c):
+        ent = _nent(rows)
+        n = sum(ent)
+        bounds = set(itertools.accumulate(ent))
+        for split in _splits(n, bounds if ver == 2 else None, maxpages=2):
+            for prog in ("auto", "rle"):
+                c.check([c.rg(rows, _pages(split, enc, ver, rep_prog=prog, def_prog=prog))],
+                        "long rows=%r split=%s levels=%s" % ([r if r is None else len(r) for r in rows], split, prog),
+                        levels=prog, long=True)
+
+
+def _enum_rg2(c, p):
+    enc, ver = c.enc, c.ver
+    for rows in _programs(c, p, minrows=2):
+        nrows = len(rows)
+        for a in range(1, nrows):
+            parts = (rows[:a], rows[a:])
+            sp = []
+            for part in parts:
+                ent = _nent(part)
+                sp.append(_splits(sum(ent), set(itertools.accumulate(ent)) if ver == 2 else None, maxpages=2))
+            for s1 in sp[0]:
+                for s2 in sp[1]:
+                    if len(s1) == 1 and len(s2) == 1 and a == nrows // 2:
+                        continue    # in the original lattice
+                    c.check([c.rg(parts[0], _pages(s1, enc, ver)), c.rg(parts[1], _pages(s2, enc, ver))],
+                            "rows=%r | %r splits=%s | %s" % (parts[0], parts[1], s1, s2))
+
+
+def _run_multi(p):
+    """a nested column next to other columns; other ways to read"""
+    import io
+    import pandas as pd
+    import fastparquet
+    from mc.specpq import writer as W
+    from mc.scratch import mark
+    enc, ver = p["enc"], p["v"]
+    cells = {"c": _Cell(dict(p, shape="list_oo", elem="int32")),
+             "m": _Cell(dict(p, shape="map_o", elem="int32")),
+             "d": _Cell(dict(p, shape="list_ro", elem="utf8")),
+             "m2": _Cell(dict(p, shape="map_r", elem="double"))}
+    for nm, cl in cells.items():
+        cl.name = cl.col["name"] = nm
+    main = cells["c"]
+    alph = {nm: row_alphabet(cl.shape, *cl.pool) for nm, cl in cells.items()}
+    flatcol = {"name": "f", "ptype": T_INT64, "rep": "optional", "ct": None}
+    order = ["f", "c", "m", "d", "m2"]
+    na = len(alph["c"])
+
+    def judge(what, read, colname, raw, exp, model=None):
+        if colname == "f":
+            from mc import oracles as O
+            got = [O.canon_cell(v) for v in raw]
+            if O.first_diff(got, exp) is not None:
+                main.bad("wrong_value", "%s [%s] flat column: %r, file encodes %r" % (what, read, got, exp),
+                         kind="flat_column", read=read, column="flat")
+                return False
+            return True
+        j = _judge(raw, exp, model)
+        if j is not None:
+            main.bad(j[0], "%s [%s] column %s: read %r, file encodes %r" % (what, read, colname, raw, exp),
+                     kind=j[1], read=read, column=cells[colname].shape)
+            return False
+        return True
+    for nrows in range(1, p["maxrows"] + 1):
+        for combo in itertools.product(range(na), repeat=nrows):
+            rows = {"f": [None if i % 2 else i + 10 for i in combo]}
+            for k, nm in enumerate(("c", "m", "d", "m2")):
+                rows[nm] = [alph[nm][(i + k) % len(alph[nm])] for i in combo]
+            ent = _nent(rows["c"])
             n = sum(ent)
-            bounds = set(itertools.accumulate(ent))
-            splits = _splits(n, bounds if ver == 2 else None)
-            for split in splits:
-                for nrg in ((1, 2) if (len(split) == 1 and nrows >= 2) else (1,)):
-                    pages = [{"n": k, "enc": enc, "v": ver} for k in split]
-                    if nrg == 1:
-                        chunk = {"rows": wrows, "codec": 0, "pages": pages}
-                        if is_map:
-                            chunk["dictionary_value"] = dictionary
-                            if dictionary is not None:
-                                chunk["pages_key"] = [{"n": k, "enc": "PLAIN", "v": ver} for k in split]
+            layouts = [("1rg", [n], None)] + [("1rg", [a, n - a], None) for a in range(1, n)]
+            if nrows >= 2:
+                layouts.append(("2rg", None, nrows // 2))
+            for lname, split, cut in layouts:
+                parts = [(0, nrows)] if cut is None else [(0, cut), (cut, nrows)]
+                rgs = []
+                crgs = []
+                for lo, hi in parts:
+                    rgspec = {"f": {"rows": rows["f"][lo:hi], "codec": 0}}
+                    for nm, cl in cells.items():
+                        part = rows[nm][lo:hi]
+                        m = sum(_nent(part))
+                        sp = split if (nm == "c" and split is not None) else [m]
+                        g = cl.rg(part, _pages(sp, enc, ver))
+                        if nm == "c":
+                            crgs.append(g)
+                        rgspec[nm] = cl.chunk(g)
+                    rgs.append(rgspec)
+                cmodel = main.kf_model(crgs) if ver == 1 else None
+                data = W.write_file({"created_by": CREATED_BY, "columns": [flatcol if nm == "f" else cells[nm].col for nm in order],
+                                     "row_groups": rgs})
+                what = "combo=%r layout=%s split=%s" % (list(combo), lname, split)
+                main.files += 1
+                mark(what)
+                exp = {nm: cells[nm].expected(rows[nm]) for nm in cells}
+                exp["f"] = rows["f"]
+                reads = [("full", None), ("cols", ["m2", "c"]), ("cols", ["f", "d"]), ("cols", ["m"]), ("iter", None),
+                         ("slice", None)]
+                okfile = True
+                for read, sel in reads:
+                    try:
+                        pf = fastparquet.ParquetFile(io.BytesIO(data))
+                        if read == "iter":
+                            df = pd.concat(list(pf.iter_row_groups()), ignore_index=True)
+                        elif read == "slice":
+                            df = pd.concat([pf[i].to_pandas() for i in range(len(pf.row_groups))], ignore_index=True)
+                        elif sel is None:
+                            df = pf.to_pandas()
                         else:
-                            chunk["dictionary"] = dictionary
-                        rgs = [{"c": chunk}]
-                    else:
-                        a = nrows // 2
-                        rgs = []
-                        for part in (wrows[:a], wrows[a:]):
-                            m = sum(1 if (r is None or len(r) == 0) else len(r) for r in part)
-                            ch = {"rows": part, "codec": 0, "pages": [{"n": m, "enc": enc, "v": ver}]}
-                            if is_map:
-                                ch["dictionary_value"] = dictionary
-                                if dictionary is not None:
-                                    ch["pages_key"] = [{"n": m, "enc": "PLAIN", "v": ver}]
-                            else:
-                                ch["dictionary"] = dictionary
-                            rgs.append({"c": ch})
-                    try:
-                        data = W.write_file({"created_by": CREATED_BY, "columns": [col], "row_groups": rgs})
-                    except ValueError as e:
-                        raise AssertionError("spec writer refused %r: %s" % (rows, e))
-                    what = "rows=%r split=%s rgs=%d" % (rows, split, nrg)
-                    if first_file:
-                        pr = F.read_file(data)
-                        assert not pr.errors, pr.errors
-                        got0 = F.column_rows(pr, "c")
-                        assert repr(got0) == repr(wrows), ("specpq self round trip", got0, wrows)
-                        first_file = False
-                    files += 1
-                    mark(what)
-                    ctx = {"pages": len(split), "rgs": nrg,
-                           "split_inside_row": bool(set(itertools.accumulate(split[:-1])) - bounds),
-                           "cont_null_only": _cont_null_only(rows, split)}
-                    try:
-                        df = fastparquet.ParquetFile(io.BytesIO(data)).to_pandas()
+                            df = pf.to_pandas(columns=sel)
                     except Exception as e:
-                        bad("read_raised", "%s: %s: %s" % (what, type(e).__name__, str(e)[:160]),
-                            exc=type(e).__name__, **ctx)
+                        main.bad("read_raised", "%s [%s %s]: %s: %s" % (what, read, sel, type(e).__name__, str(e)[:160]),
+                                 exc=type(e).__name__, read=read)
+                        okfile = False
                         continue
-                    if list(df.columns) != ["c"]:
-                        bad("wrong_columns", "%s: columns %r" % (what, list(df.columns)), **ctx)
+                    want = order if sel is None else sel
+                    if sorted(df.columns) != sorted(want):
+                        main.bad("wrong_columns", "%s [%s %s]: columns %r" % (what, read, sel, list(df.columns)), read=read)
+                        okfile = False
                         continue
-                    got = O.series_to_list(df["c"])
-                    rows_checked += len(exp)
-                    i = O.first_diff(got, exp)
-                    if i is not None:
-                        bad("wrong_value", "%s: row %s is %r, file encodes %r" % (
-                            what, i, got[i] if i >= 0 else len(got), exp[i] if i >= 0 else len(exp)), **ctx)
-    ok = not sigs
-    return {"ok": ok, "outcome": "assembled" if ok else "wrong", "nontrivial": rows_checked > 0,
-            "counts": {"files": files, "rows": rows_checked}, "sig": list(sigs.values()) or None,
-            "detail": detail[0]}
+                    for nm in want:
+                        main.rows_checked += nrows
+                        okfile = judge(what, read, nm, df[nm].tolist(), exp[nm], cmodel if nm == "c" else None) and okfile
+                main.files_ok += 1 if okfile else 0
+    return main.result()
+
+
+ENUM = {"base": _enum_splits, "types": _enum_splits, "nullpos": _enum_splits, "names": _enum_splits,
+        "mixed": _enum_mixed, "levels": _enum_levels, "rg2": _enum_rg2}
+
+
+def run(p):
+    fam = p.get("fam", "base")
+    if fam == "multi":
+        return _run_multi(p)
+    c = _Cell(p)
+    ENUM[fam](c, p)
+    return c.result()
 
 
 LEVEL_TEXT = ("Bounded-exhaustive: every row sequence up to 3 (quick) / 4 (thorough) rows over the complete row alphabet "
               "of each LIST/MAP shape, with every split of the level stream into up to three pages (including splits "
               "inside a row), plain and dictionary values, v1 and v2 pages, one and two row groups, written by an "
-              "independent Dremel shredder and assembled by the real reader; compared row by row with the Python values.")
+              "independent Dremel shredder and assembled by the real reader; compared row by row with the Python values "
+              "(canonical values, then container types, None-ness of nulls, key order of dicts, sign of zero). "
+              "Seven further families with shorter sequences vary one more dimension each: element types that need a "
+              "conversion, null elements before values, per-page encodings and dictionary contents, column and group "
+              "names, RLE-run level streams and long rows, several pages in each of two row groups, and other columns "
+              "/ other read calls.")
 LEVEL_NOTE = ("Trusted: specpq shredder (self round trip checked per cell). Three-level LIST and standard MAP shapes only; "
-              "element types INT32/INT64/UTF8/DOUBLE.")
+              "element types INT32/INT64/UTF8/DOUBLE in the full lattice, DATE/TIMESTAMP_MICROS/UINT_32/BOOLEAN and INT32 "
+              "keys on short sequences. Failures of v2 pages are known findings only for the layouts named by the "
+              "v2_* predicates; v2 files outside them must read correctly.")
 TECHNIQUE = "bounded exhaustive enumeration of row sequences x page splits of nested columns, real reader vs Python values"
